@@ -60,6 +60,9 @@ RULE = ("cases = (automaton, representation class, option tuple (maxlen, with_wo
         "automata requested from the library, edited in place, then freely reduced "
         "enumeration on the same / a new / a different-class representation with the "
         "same generator list (both call orders); "
+        "representation objects whose generators were assigned again (once / twice / through "
+        "the inverse name / inverse name first / all / keyword / on a copy), before and after "
+        "a first enumeration, judged against the workload's record of the current generators; "
         "representations whose inverse-letter matrices are not the inverses (compute_inverse="
         "False monoid representations on both classes, copies, astype('int64') truncations, "
         "non-multiplicative compose()) x labels / accepted words with adjacent x X pairs "
@@ -85,6 +88,9 @@ ASSUMPTIONS = [
     "(docstring 'inclusive' vs the name and the code) is recorded, not judged",
     "free_words_* are judged for single-character generator names (they look at "
     "the last *character* of a word); other names are recorded only",
+    "rep[name] = X (and set_generator(name, X, compute_inverse=True)) makes X the image of "
+    "name and the inverse of X the image of the inverse name from then on, whatever the "
+    "object held before; in the reassigned workload the reference inverse is numpy's",
     "an automaton with an edit history denotes the set model obtained by applying "
     "the same documented edits to the model of its construction; scripts keep it "
     "deterministic.  The history monitor judges only while the library's own label "
@@ -1664,6 +1670,222 @@ def wl_free_history(run, rng, idx):
         _ctx.update(route="ambient", rep="ambient")
 
 
+# ---------------------------------------------------------------------------
+# histories of the representation itself
+
+REASSIGN_KINDS = ("lower-once", "lower-twice", "via-inverse-name", "inverse-then-generator",
+                  "generator-inverse-generator", "all-generators", "same-value-then-other",
+                  "set_generator-keyword", "copy-then-reassign", "keyword-no-inverse")
+
+
+class RepHistory:
+    """a library representation together with the workload's own record of its
+    CURRENT generators: every assignment `rep[name] = X` (or
+    set_generator(name, X, compute_inverse=True)) makes X the image of `name`
+    and numpy's inverse of X the image of the inverse name, whatever was stored
+    under either name before.  The matrix of the assigned name is read back in
+    the library's storage convention right after the assignment (for a plain
+    Representation it must be X itself); the inverse letter is never read from
+    the library -- it is np.linalg.inv of the current matrix."""
+
+    def __init__(self, run, rng, kind, names, rep=None, ref=None):
+        from geometry_tools import representation, projective
+        self.run, self.rng, self.kind, self.names = run, rng, kind, list(names)
+        self.dim = int(kind[-1])
+        self.proj = kind.startswith("proj")
+        self._T = projective.Transformation
+        if rep is None:
+            rep = projective.ProjectiveRepresentation() if self.proj else representation.Representation()
+        self.rep = rep
+        self.ref = dict(ref or {})
+        self.log = []
+
+    def fresh(self):
+        """new non-commuting generator matrices for all names."""
+        return fl.generator_matrices(self.rng, self.names, self.dim,
+                                     "int" if self.kind.startswith("int") else "float")
+
+    def assign(self, name, X, how="item"):
+        X = np.array(X)
+        val = self._T(np.array(X, dtype=float), column_vectors=True) if self.proj else X
+        if how == "item":
+            lib(self.run, "history", "rep[name] = matrix", lambda: self.rep.__setitem__(name, val))
+        elif how == "keyword":
+            lib(self.run, "history", "set_generator", lambda: self.rep.set_generator(
+                name, val, compute_inverse=True))
+        else:
+            lib(self.run, "history", "set_generator", lambda: self.rep.set_generator(
+                name, val, compute_inverse=False))
+        stored = np.array(self.rep.generators[name], copy=True)
+        if not self.proj:
+            self.run.monitor("history").require(
+                stored.shape == X.shape and np.array_equal(stored, X),
+                "history/assigned-matrix-not-stored/%s" % how,
+                "after assigning generator %r its stored matrix is not the assigned one" % name)
+        self.ref[name] = stored
+        if how != "no-inverse":
+            self.ref[fl.swapcase_inverse(name)] = np.linalg.inv(np.asarray(stored, dtype=float))
+        self.log.append([how, name, X])
+
+    def copy(self):
+        from geometry_tools import representation
+        cls = type(self.rep)
+        rep2 = lib(self.run, "history", "copy", lambda: cls(self.rep))
+        return RepHistory(self.run, self.rng, self.kind, self.names, rep=rep2,
+                          ref={k: np.array(v, copy=True) for k, v in self.ref.items()})
+
+
+def judge_current(run, H, what, res, ww, exp, M, ew, cls):
+    """history monitor: result against the products of the workload's record
+    of the current generators."""
+    hist = run.monitor("history")
+    J = Judge(M, H.ref, H.dim, ew, True)
+    r = J.problems(res, ww, exp(J))
+    if isinstance(r, tuple):
+        hist.fail("history/%s/%s/%s/after:%s" % (r[0], r[1], what, cls),
+                  "%s on a representation whose generators were re-assigned: %s (reference: "
+                  "numpy product of the current generators, inverse letters = inverse of the "
+                  "current generator)" % (what, r[2]), residual=r[3])
+        return False
+    hist.ok(r)
+    return True
+
+
+def enumerate_current(run, rng, H, F, M, cls, L=3):
+    """freely reduced enumeration and automaton_accepted in every mode on the
+    representation of history H, judged against its current generators."""
+    v0 = nviol(run)
+    rep = H.rep
+    for maxlen in (True, False):
+        for ww in (True, False):
+            res = lib(run, "free-reduced", "freely_reduced_elements",
+                      lambda: rep.freely_reduced_elements(L, maxlen=maxlen, with_words=ww))
+            if nviol(run) != v0:
+                raise Stop()
+            words = fl.free_reduced_words(H.names, L, exact=not maxlen)
+            expc = collections.Counter((w, None) for w in words)
+            if not judge_current(run, H, "freely_reduced_elements", res, ww, lambda J: expc,
+                                 Model(), False, cls):
+                raise Stop()
+    vs = sorted(M.vertices, key=repr)
+    modes = [("default", None), ("start", vs[int(rng.integers(0, len(vs)))]),
+             ("end", vs[int(rng.integers(0, len(vs)))])]
+    for ew in (True, False):
+        for maxlen in (True, False):
+            memo_d = {}
+            for m, st in modes:
+                for ww in (True, False):
+                    kw = {"maxlen": maxlen, "with_words": ww, "edge_words": ew}
+                    if m == "start":
+                        kw["start_state"] = st
+                    elif m == "end":
+                        kw["end_state"] = st
+                    if m == "default" and ww:
+                        kw["precomputed"] = memo_d
+                    res = lib(run, "accepted-set", "automaton_accepted",
+                              lambda: rep.automaton_accepted(F, L, **kw))
+                    if nviol(run) != v0:
+                        raise Stop()
+                    if not judge_current(run, H, "automaton_accepted", res, ww,
+                                         lambda J: J.expected(m, st, L, maxlen), M, ew,
+                                         "%s/mode:%s" % (cls, m)):
+                        raise Stop()
+
+
+def wl_reassigned(run, rng, idx):
+    """histories of ONE representation object: generators assigned again
+    (once, several times, through the inverse name, inverse name first and the
+    generator afterwards, all of them, with the explicit keyword, on a copy
+    while the original lives on), before and after a first enumeration.  Every
+    later enumeration -- freely_reduced_elements and automaton_accepted in all
+    modes, words with inverse letters included -- returns the images under the
+    CURRENT generators: the reference multiplies the workload's own record
+    (assigned matrices; numpy inverses for the inverse letters) instead of
+    whatever the object has accumulated in its generator table.
+    (seeded change C06-r7-1: _set_generator keeps an inverse that is already
+    present, so after rep['a'] = M1; rep['a'] = M2 the letter 'A' is still
+    inv(M1).)"""
+    cls = REASSIGN_KINDS[idx % len(REASSIGN_KINDS)]
+    kind = REP_KINDS[(idx // 2) % len(REP_KINDS)]
+    ngen = 1 + (idx // 3) % 3
+    names = ["a", "b", "c"][:ngen] if (idx // 7) % 2 == 0 else ["x", "q", "m"][:ngen]
+    enumerate_first = idx % 2 == 0
+    alphabet = tuple(names) + tuple(g.upper() for g in names)
+    d, start, _labels = fl.random_automaton(rng, max_states=5, alphabet=alphabet)
+    if not any(l.upper() == l for nb in d.values() for l in nb):
+        d[start][names[0].upper()] = start          # some accepted word has an inverse letter
+    M = Model.from_label_dict(d, [start])
+    _ctx.update(route="reassigned", rep=kind)
+    run.current_case = {"route": "reassigned", "rep": kind, "history": cls, "generators": names,
+                        "enumerate_first": enumerate_first, "start": repr(start),
+                        "label_dict": {repr(v): {l: repr(w) for l, w in nb.items()} for v, nb in d.items()}}
+    try:
+        F = lib(run, "accepted-set", "construct",
+                lambda: fsa_build.build(fsa_build.ROUTES[idx % NR], d, start, rng))
+        L = 3
+        while L > 1 and fl.count_paths(M, L, start, PATH_CAP) > 300:
+            L -= 1
+        H = RepHistory(run, rng, kind, names)
+        v0 = nviol(run)
+        g, G = names[0], names[0].upper()
+        last = names[-1]
+        m0 = H.fresh()
+        if cls == "inverse-then-generator":
+            # the inverse name is assigned before the generator itself
+            H.assign(G, m0[G])
+            for h in names[1:]:
+                H.assign(h, m0[h])
+        else:
+            for h in names:
+                H.assign(h, m0[h])
+        if nviol(run) != v0:
+            raise Stop()
+        if enumerate_first:
+            enumerate_current(run, rng, H, F, M, "first-assignment", L)
+        m1, m2 = H.fresh(), H.fresh()
+        others = [H]
+        if cls == "lower-once":
+            H.assign(g, m1[g])
+        elif cls == "lower-twice":
+            H.assign(g, m1[g])
+            H.assign(g, m2[g])
+        elif cls == "via-inverse-name":
+            H.assign(G, m1[g])
+        elif cls == "inverse-then-generator":
+            H.assign(g, m1[g])
+        elif cls == "generator-inverse-generator":
+            H.assign(g, m1[g])
+            H.assign(G, m2[g])
+            H.assign(last, m1[last] if last != g else m2[G])
+        elif cls == "all-generators":
+            for h in names:
+                H.assign(h, m1[h])
+        elif cls == "same-value-then-other":
+            H.assign(g, np.array(m0[g], copy=True))
+            H.assign(last, m1[last])
+        elif cls == "set_generator-keyword":
+            H.assign(g, m1[g], how="keyword")
+        elif cls == "copy-then-reassign":
+            H2 = H.copy()
+            H2.assign(g, m1[g])
+            H2.assign(last, m2[last])
+            others = [H2, H]            # the original must still enumerate its own generators
+        elif cls == "keyword-no-inverse":
+            # documented keyword: only this name changes
+            H.assign(g, m1[g], how="no-inverse")
+            H.assign(last.upper(), m2[last], how="item")
+        if nviol(run) != v0:
+            raise Stop()
+        for i, Hx in enumerate(others):
+            run.current_case["assignments"] = [[a, b, np.asarray(c)] for a, b, c in Hx.log]
+            enumerate_current(run, rng, Hx, F, M, cls if i == 0 else cls + "/original", L)
+        run.note_class("reassigned", cls, kind, ngen, enumerate_first)
+    except Stop:
+        pass
+    finally:
+        _ctx.update(route="ambient", rep="ambient")
+
+
 WORKLOADS = [
     Workload("dense-sample", wl_dense_sample, quick=32, thorough=0),
     Workload("dense-all", wl_dense_all, quick=0, thorough=(DENSE_TOTAL + 7) // 8),
@@ -1678,5 +1900,6 @@ WORKLOADS = [
     Workload("free-group-names", wl_free_names, quick=2, thorough=8),
     Workload("edited", wl_edited, quick=27, thorough=720),
     Workload("free-history", wl_free_history, quick=14, thorough=210),
+    Workload("reassigned", wl_reassigned, quick=20, thorough=300),
 ]
 EXHAUSTIVE = {"quick": False, "thorough": False}
